@@ -193,6 +193,15 @@ impl Model {
         }
     }
 
+    /// after an injected fault: the entity is dead, but its components are whatever the real
+    /// storages still report (the interrupted purge may leave orphans)
+    pub fn kill_entity_only(&mut self, hn: usize) {
+        let idx = self.hs[hn].ent.id();
+        self.hs[hn].dead = true;
+        self.hs[hn].pending_kill = false;
+        self.occ.remove(&idx);
+    }
+
     pub fn note_destroyed(&mut self, slot: usize, v: V) {
         if self.kinds[slot].zst() {
             self.exp_zst_destroyed += 1;
@@ -286,6 +295,25 @@ impl Model {
                 self.kill(hn);
             }
         }
+    }
+
+    /// the members of `slot` that a join with the entities resource visits: ascending index,
+    /// occupant not yet dead (orphans left behind by an interrupted purge are skipped)
+    pub fn joined(&self, slot: usize) -> Vec<(u32, V)> {
+        self.comps[slot]
+            .iter()
+            .filter(|(i, _)| self.occ.contains_key(i))
+            .map(|(i, v)| (*i, *v))
+            .collect()
+    }
+
+    /// remove by index regardless of the occupant (drain works on the raw masked storage)
+    pub fn remove_raw(&mut self, slot: usize, idx: u32) -> Option<V> {
+        let r = self.comps[slot].remove(&idx);
+        if r.is_some() {
+            self.push_ev(slot, Ev::Rem(idx), true);
+        }
+        r
     }
 
     pub fn take_expected_events(&mut self, slot: usize) -> Vec<ExpEv> {
